@@ -1,7 +1,8 @@
 SPECIFICATION Spec
-CONSTANTS MaxOp = 3
-          Vals = {1, 2, 3}
-          Targets = {1, 2, 3, 5}
+CONSTANTS NTx = 2
+          Idxs = {0, 1}
+          Vals = {1, 2}
+          Targets = {1, 2, 3}
           MinChanges = {0, 2}
 INVARIANT PropC26
 CHECK_DEADLOCK FALSE
